@@ -162,7 +162,14 @@ impl Cfg {
     }
 }
 
+/// fork() duplicates every descriptor of the harness process, and 16 workers spawn children
+/// concurrently: a child forked by another worker while the read end of a "closed" pipe is
+/// still open would keep that pipe alive until its exec. Spawns therefore hold this lock for
+/// reading, and the creation of a closed pipe holds it for writing (no fork in flight).
+pub static SPAWN_LOCK: std::sync::RwLock<()> = std::sync::RwLock::new(());
+
 fn closed_pipe_writer() -> Result<std::fs::File, String> {
+    let _exclusive = SPAWN_LOCK.write().unwrap_or_else(std::sync::PoisonError::into_inner);
     let mut fds = [0i32; 2];
     // SAFETY: plain pipe(2) call with a valid two-element array
     if unsafe { libc::pipe2(fds.as_mut_ptr(), libc::O_CLOEXEC) } != 0 {
@@ -272,7 +279,10 @@ fn spawn_cfg(case: &Case, input: &[u8], cfg: &Cfg, paths: &[String], ctx: &mut C
         cmd.env("LD_PRELOAD", shim_path());
         cmd.env("IOFAULT_PLAN", &planp);
     }
-    let mut child = cmd.spawn().map_err(|e| format!("cannot spawn {}: {e}", bin_path().display()))?;
+    let mut child = {
+        let _shared = SPAWN_LOCK.read().unwrap_or_else(std::sync::PoisonError::into_inner);
+        cmd.spawn().map_err(|e| format!("cannot spawn {}: {e}", bin_path().display()))?
+    };
     if preset == Preset::DrainedPipe {
         drain = child.stdout.take();
     }
